@@ -445,6 +445,9 @@ theorem step_execApMap (i : Instr) (key val : Value) (name : String) (pos : Nat)
   apply rel_bind_joinable_readER SP (step_inc env)
   · exact rel_pure SP _
   · intro c va h
+    simp only
+    refine rel_bind_joinable_readER_at SP (step_inc env) c (rel_pure SP _) ?_
+    intro k hk
     show Step env c ((M.bind (liftTH i fun th => th.meetApStart) _) c).2
     simp only [M.bind, liftTH, stateER]
     cases hth : (traceToExec (c.th.meetApStart) i).bind fun (x : MergerApResult × TraceHandler) => (Res.ok (x.1, { c with th := x.2 }) : ER (MergerApResult × Ctx)) with
@@ -458,8 +461,6 @@ theorem step_execApMap (i : Instr) (key val : Value) (name : String) (pos : Nat)
       obtain ⟨th', rfl⟩ := hc1
       simp only [hth]
       refine (step_preorder env).trans (step_th env c th') ?_
-      refine rel_bind_joinable_readER_at SP (step_inc env) _ (rel_pure SP _) ?_
-      intro k hk
       refine rel_bind_at SP _ ?_ (fun _ => rel_modifyCtx fun c => step_th env c _)
       exact step_addStreamValue_at _ (ValueAggregate.new (fromKeyValue k va.result) va.tetraplet va.tracePos va.provenance) name _ pos
         fun hi => new_ok (pairOK_closed env _) _ _ (applyToArgStream_ok (c := c) (envInv_of_th hi) h)
